@@ -53,6 +53,21 @@ func (e *Env) with(vars map[string]Val) *Env {
 	return &n
 }
 
+// stOf: the state in which v is dereferenced (old(...) values carry their own state).
+func (e *Env) stOf(v Val) *State {
+	if v.St != nil {
+		return v.St
+	}
+	return e.st
+}
+
+func inherit(v Val, from Val) Val {
+	if from.St != nil && v.St == nil {
+		v.St = from.St
+	}
+	return v
+}
+
 func (e *Env) inOld() *Env {
 	if e.old == nil {
 		e.c.fail("old() used where no pre-state exists")
@@ -224,15 +239,15 @@ func (e *Env) eval(x Expr) Val {
 		switch u := v.T.Underlying().(type) {
 		case *types.Slice:
 			i := e.evalIndex(x.I)
-			return c.loadElem(e.st, u.Elem(), v.L[0], idxAt(v.L[1], i))
+			return inherit(c.loadElem(e.stOf(v), u.Elem(), v.L[0], idxAt(v.L[1], i)), v)
 		case *types.Map:
 			mi := c.mapInfo(v.T)
 			k := e.evalTyped(x.I, mi.K)
-			return c.mapGet(e.st, mi, v.L[0], k.L[0])
+			return inherit(c.mapGet(e.stOf(v), mi, v.L[0], k.L[0]), v)
 		case *types.Pointer:
 			if a, ok := u.Elem().Underlying().(*types.Array); ok {
 				i := e.evalIndex(x.I)
-				return c.loadElem(e.st, a.Elem(), v.L[0], i)
+				return inherit(c.loadElem(e.stOf(v), a.Elem(), v.L[0], i), v)
 			}
 		case *types.Basic:
 			if u.Info()&types.IsString != 0 {
@@ -255,9 +270,14 @@ func (e *Env) eval(x Expr) Val {
 		if x.Hi != nil {
 			hi = e.evalIndex(x.Hi)
 		}
-		return Val{T: v.T, L: []string{v.L[0], app("bvadd", v.L[1], lo), app("bvsub", hi, lo)}}
+		return inherit(Val{T: v.T, L: []string{v.L[0], app("bvadd", v.L[1], lo), app("bvsub", hi, lo)}}, v)
 	case *EOld:
-		return e.inOld().eval(x.X)
+		o := e.inOld()
+		v := o.eval(x.X)
+		if v.St == nil {
+			v.St = o.st
+		}
+		return v
 	case *EIte:
 		cnd := e.evalBool(x.C)
 		a, b := e.unify(e.eval(x.A), e.eval(x.B))
@@ -394,7 +414,7 @@ func (e *Env) selectField(v Val, name string) Val {
 	}
 	cur := v
 	for _, idx := range path {
-		cur = c.fieldOf(e.st, cur, idx)
+		cur = inherit(c.fieldOf(e.stOf(v), cur, idx), v)
 	}
 	return cur
 }
@@ -470,7 +490,7 @@ func (e *Env) evalBin(x *EBin) Val {
 		if _, ok := coll.T.Underlying().(*types.Map); ok {
 			mi := c.mapInfo(coll.T)
 			k := e.evalTyped(x.X, mi.K)
-			return boolVal(c.mapHas(e.st, mi, coll.L[0], k.L[0]))
+			return boolVal(c.mapHas(e.stOf(coll), mi, coll.L[0], k.L[0]))
 		}
 		c.fail("spec: 'in' needs a map or set")
 	}
@@ -705,7 +725,7 @@ func (e *Env) evalCall(x *ECall) Val {
 			case *types.Slice:
 				return Val{T: types.Typ[types.Int], L: []string{v.L[2]}}
 			case *types.Map:
-				return Val{T: types.Typ[types.Int], L: []string{c.mapLen(e.st, e.guard, c.mapInfo(v.T), v.L[0])}}
+				return Val{T: types.Typ[types.Int], L: []string{c.mapLen(e.stOf(v), e.guard, c.mapInfo(v.T), v.L[0])}}
 			case *types.Basic:
 				c.declStr()
 				return Val{T: types.Typ[types.Int], L: []string{app("strlen", v.L[0])}}
@@ -714,7 +734,7 @@ func (e *Env) evalCall(x *ECall) Val {
 					return Val{T: types.Typ[types.Int], L: []string{bvI(a.Len(), 64)}}
 				}
 			case *types.Chan:
-				return Val{T: types.Typ[types.Int], L: []string{c.chanLen(e.st, v.L[0])}}
+				return Val{T: types.Typ[types.Int], L: []string{c.chanLen(e.stOf(v), v.L[0])}}
 			}
 			c.fail("spec: len of %s", v.T)
 		case "val":
@@ -750,6 +770,21 @@ func (e *Env) evalCall(x *ECall) Val {
 				b = "false"
 			}
 			return Val{ST: s.ST, L: []string{tStore(s.L[0], k, b)}}
+		case "restrict":
+			// restrict(S, forall k T :: cond): the subset of S whose elements satisfy cond
+			sv := e.eval(x.Args[0])
+			q, ok := x.Args[1].(*EQuant)
+			if !ok || sv.ST == nil || sv.ST.Kind != "set" || len(q.Vars) != 1 {
+				c.fail("spec: restrict(set, forall k T :: cond)")
+			}
+			sort := c.sortOfRT(&resolvedType{S: sv.ST})
+			ks := c.sortOfRT(sv.ST.Key)
+			r := c.fresh("restricted", sort)
+			c.nsym++
+			bv := fmt.Sprintf("%s!q%d", q.Vars[0].Name, c.nsym)
+			body := e.with(map[string]Val{q.Vars[0].Name: {T: sv.ST.Key.Go, ST: sv.ST.Key.S, L: []string{bv}}}).evalBool(q.Body)
+			c.assume("true", fmt.Sprintf("(forall ((%s %s)) (! (= (select %s %s) (and (select %s %s) %s)) :pattern ((select %s %s))))", bv, ks, r, bv, sv.L[0], bv, body, r, bv))
+			return Val{ST: sv.ST, L: []string{r}}
 		case "disjoint":
 			a, b := e.eval(x.Args[0]), e.eval(x.Args[1])
 			// two slices do not share any element
@@ -760,10 +795,30 @@ func (e *Env) evalCall(x *ECall) Val {
 			return boolVal(tNot(tEq(a.L[0], b.L[0])))
 		case "closed":
 			v := e.eval(x.Args[0])
-			return boolVal(c.chanClosed(e.st, v.L[0]))
+			return boolVal(c.chanClosed(e.stOf(v), v.L[0]))
+		case "chhead", "chtail":
+			v := e.eval(x.Args[0])
+			key := "CH|head"
+			if x.Fun == "chtail" {
+				key = "CH|tail"
+			}
+			return Val{T: types.Typ[types.Int], L: []string{tSel(c.chGet(e.stOf(v), key), v.L[0])}}
+		case "chat":
+			// chat(ch, i): the element stored at absolute buffer position i of channel ch
+			v := e.eval(x.Args[0])
+			ch, ok := v.T.Underlying().(*types.Chan)
+			if !ok {
+				c.fail("spec: chat needs a channel")
+			}
+			i := e.evalIndex(x.Args[1])
+			out := Val{T: ch.Elem(), St: v.St}
+			for _, k := range c.chanBufKeys(ch.Elem()) {
+				out.L = append(out.L, tSel(tSel(c.comp(e.stOf(v), k.Path, arrSort(SRef, arrSort(bvSort(64), k.Sort))), v.L[0]), i))
+			}
+			return out
 		case "cap":
 			v := e.eval(x.Args[0])
-			return Val{T: types.Typ[types.Int], L: []string{c.chanCap(e.st, v.L[0])}}
+			return Val{T: types.Typ[types.Int], L: []string{c.chanCap(e.stOf(v), v.L[0])}}
 		}
 		if flds, ok := c.W.specTypes[x.Fun]; ok {
 			rt := c.resolveType(e.pkg, &TypeExpr{Kind: "named", Name: x.Fun})
@@ -776,6 +831,9 @@ func (e *Env) evalCall(x *ECall) Val {
 				args = append(args, e.evalAs(a, rt.S.Flds[i].T))
 			}
 			return Val{ST: rt.S, L: []string{app("mk_T_"+x.Fun, args...)}}
+		}
+		if p, ok := c.W.pures[x.Fun]; ok && p.Opaque {
+			return e.evalOpaque(p, x)
 		}
 		if p, ok := c.W.pures[x.Fun]; ok {
 			if len(p.Params) != len(x.Args) {
@@ -902,4 +960,93 @@ func (c *Ctx) makeIface(T types.Type, v Val) string {
 	}
 	c.assume("true", tAnd(facts...))
 	return name
+}
+
+// evalOpaque: an opaque predicate is an uninterpreted Boolean function of its arguments and of the current
+// versions of exactly the heap components its body reads.  Two occurrences in states that agree on those
+// components are syntactically equal; the definition is only available where the contract says `reveal`.
+func (e *Env) evalOpaque(p *PureDecl, x *ECall) Val {
+	c := e.c
+	if len(p.Params) != len(x.Args) {
+		c.fail("spec: %s expects %d arguments", p.Name, len(p.Params))
+	}
+	vars := map[string]Val{}
+	var argTerms, argSorts []string
+	for i, b := range p.Params {
+		rt := c.resolveType(e.pkg, b.T)
+		v := e.eval(x.Args[i])
+		if v.Const != nil {
+			v = e.coerceConst(v, rt.Go)
+		}
+		v.St = nil
+		vars[b.Name] = v
+		if len(v.L) != 1 {
+			c.fail("spec: opaque predicate %s needs single-sorted arguments", p.Name)
+		}
+		argTerms = append(argTerms, v.L[0])
+		argSorts = append(argSorts, c.sortOfRT(rt))
+	}
+	n := *e
+	n.vars = vars
+	n.depth = e.depth + 1
+	if c.opReads == nil {
+		c.opReads = map[string][]string{}
+	}
+	reveal := c.top != nil && c.top.Reveal[p.Name]
+	keys, known := c.opReads[p.Name]
+	var body string
+	if !known || reveal {
+		saved := c.rec
+		c.rec = map[string]string{}
+		body = n.evalBool(p.Body)
+		for k := range c.rec {
+			found := false
+			for _, k2 := range keys {
+				if k2 == k {
+					found = true
+				}
+			}
+			if !found {
+				keys = append(keys, k)
+			}
+		}
+		sortStrings(keys)
+		c.opReads[p.Name] = keys
+		if saved != nil {
+			for k, s := range c.rec {
+				saved[k] = s
+			}
+		}
+		c.rec = saved
+	}
+	var terms, sorts []string
+	terms = append(terms, argTerms...)
+	sorts = append(sorts, argSorts...)
+	for _, k := range keys {
+		sort := c.compSort[k]
+		if sort == "" {
+			c.fail("spec: opaque predicate %s reads unknown component %s", p.Name, k)
+		}
+		terms = append(terms, c.comp(e.st, k, sort))
+		sorts = append(sorts, sort)
+	}
+	fn := fmt.Sprintf("op_%s_%d", p.Name, len(keys))
+	c.declFun(fn, strings.Join(sorts, " "), SBool)
+	t := c.define("op_"+p.Name, SBool, app(fn, terms...))
+	if reveal {
+		key := "reveal:" + app(fn, terms...)
+		if !c.declared[key] {
+			c.declared[key] = true
+			c.items = append(c.items, Item{Kind: "assert", Body: tEq(t, body)})
+		}
+	}
+	return boolVal(t)
+}
+
+func sortStrings(a []string) {
+	for i := 1; i < len(a); i++ {
+		for j := i; j > 0 && a[j] < a[j-1]; j-- {
+			a[j], a[j-1] = a[j-1], a[j]
+		}
+	}
 }
